@@ -73,7 +73,15 @@ def polygons(coords, indices=None, out=None, **kw):
         g = PolyRef(mk, n, coords, pos(n), nverts)
         if m is True:
             return g
-        return Maybe.ite(m, g, old_fn(i)) if _maybe_like(old_fn(i)) else s_ite(m, g, old_fn(i))
+        cc = core.ctx()
+        if not cc.feasible(z3.Not(zbool(m))):
+            return g
+        if not cc.feasible(zbool(m)):
+            return old_fn(i)
+        old = old_fn(i)
+        if _maybe_like(old):
+            return Maybe.ite(m, g, old)
+        raise Unsupported('slot written by several shapely.polygons calls whose conditions are not decided on this path')
     out.fn = new_fn
     out._propagate()
     return out
@@ -116,7 +124,7 @@ class PolyRef:
 @model
 def is_valid(geoms):
     used('SH-IS-VALID')
-    a = asarray(geoms)
+    a = asarray(geoms).frozen()
     f = _fn('is_valid', GeomSort, z3.BoolSort())
 
     def fn(i):
